@@ -124,9 +124,9 @@ func frameTag(o *obs, v2 bool) (writer byte, index uint32, ok bool) {
 
 // checkEventStream evaluates the C10 oracles over the consumer's log.
 type streamOpts struct {
-	nodeClosedAt  time.Duration // 0 = not closed before the check
-	consumerAlive bool
-	lossless      bool
+	nodeClosedAt   time.Duration // 0 = not closed before the check
+	consumerAlive  bool
+	lossless       bool
 	lossyDatagrams bool // datagram links lose, duplicate, reorder and corrupt: soundness only
 }
 
